@@ -146,6 +146,9 @@ func enumerateDedup(c *Check, a *Anchors) *dedupPaths {
 		return "", ""
 	}}
 	pe.Name = isExitName(pe)
+	if tableStoresOnlyNonNil(c) {
+		pe.NonNilTables = map[string]bool{"lookup(field:Executor.executionHashes)": true}
+	}
 	pe.Run()
 	c.Paths += len(pe.Paths)
 	if pe.Truncated || len(pe.Paths) == 0 {
@@ -423,4 +426,54 @@ func tableEntriesPermanent(c *Check, a *Anchors) {
 	if n == 0 {
 		c.OK("table-entries-permanent", "package task", a.Dedup.Decl.Pos(), "no delete/clear on Executor.executionHashes")
 	}
+}
+
+
+// tableStoresOnlyNonNil: every store into Executor.executionHashes in package task stores the address of a composite literal
+// (directly or through a variable whose every definition is one): a found entry is never nil.
+func tableStoresOnlyNonNil(c *Check) bool {
+	n, ok := 0, true
+	for _, fb := range c.P.BodiesIn(PkgTask) {
+		info := fb.Info()
+		inspectBody(fb.Body, func(nd ast.Node) bool {
+			as, isAs := nd.(*ast.AssignStmt)
+			if !isAs {
+				return true
+			}
+			for i, l := range as.Lhs {
+				ix, isIx := ast.Unparen(l).(*ast.IndexExpr)
+				if !isIx || !fieldSel(info, ix.X, PkgTask, "Executor", "executionHashes") || i >= len(as.Rhs) {
+					continue
+				}
+				n++
+				nonNil := func(e ast.Expr) bool {
+					u, isU := ast.Unparen(e).(*ast.UnaryExpr)
+					if !isU || u.Op != token.AND {
+						return false
+					}
+					_, isLit := ast.Unparen(u.X).(*ast.CompositeLit)
+					return isLit
+				}
+				r := as.Rhs[i]
+				if nonNil(r) {
+					continue
+				}
+				if v := varOf(info, r); v != nil {
+					defs := defsOf(info, fb.Root().Body, v)
+					all := len(defs) > 0
+					for _, d := range defs {
+						if !nonNil(d) {
+							all = false
+						}
+					}
+					if all {
+						continue
+					}
+				}
+				ok = false
+			}
+			return true
+		})
+	}
+	return n > 0 && ok
 }
